@@ -183,6 +183,12 @@ func runScenario(k *mon.Case) {
 func runLiveness(k *mon.Case) {
 	r := k.R
 	cfg := poolCfg{Max: 1 + r.Intn(4), Per: 1 + r.Intn(4), Diff: 1}
+	// massInvalid: a larger pool with many senders whose waiting transactions the verifier turns
+	// down in the same promotion pass (every sender list then needs the pool lock at once)
+	massInvalid := r.Intn(4) == 0
+	if massInvalid {
+		cfg.Max = 6 + r.Intn(19)
+	}
 	e := newEnv(cfg)
 	var hist []string
 	c := &caller{k: k, context: func() string { return cfg.String() + ": " + fmt.Sprint(hist) }}
@@ -216,6 +222,18 @@ func runLiveness(k *mon.Case) {
 			}
 			k.Count("live_remove_returned", 1)
 		default:
+			if massInvalid {
+				turned := 0
+				for _, tx := range pooled {
+					if r.Intn(5) != 0 {
+						e.ver.set(tx.ID, labi.TxVerifyResultInvalid)
+						turned++
+					}
+				}
+				hist = append(hist, fmt.Sprintf("verdict-invalid(x%d)", turned))
+				k.Count("live_mass_invalid_passes", 1)
+				pooled = pooled[:0]
+			}
 			hist = append(hist, "reorg")
 			if !c.call("reorg", func() { e.pool.VerifReorgStep() }) {
 				k.Violation(c.panicked.Key, c.panicked.What, map[string]any{"config": cfg.String(), "history": hist})
@@ -231,7 +249,7 @@ func runLiveness(k *mon.Case) {
 			k.Count("live_calls_on_full_pool", 1)
 		}
 	}
-	k.Nontrivial(fmt.Sprintf("m%d/p%d", cfg.Max, cfg.Per))
+	k.Nontrivial(fmt.Sprintf("m%d/p%d/mass%v", cfg.Max, cfg.Per, massInvalid))
 	k.Sample(map[string]any{"config": cfg.String(), "calls": len(hist)})
 }
 
